@@ -94,6 +94,11 @@ def make_dataset(rng: numpy.random.Generator, nv: int = 6, nq: int = 2, na: int 
     elif law == "quadratic":
         g2 = rng.uniform(-1.0, 1.0, size=(nq, np_))
         lnw = numpy.log(omega0)[None] - gammas[None] * x[:, None, None] + g2[None] * x[:, None, None] ** 2
+    elif law == "smooth":
+        # not a low-order polynomial in ln V: node-based interpolants through different node subsets differ visibly
+        g2 = rng.uniform(-1.0, 1.0, size=(nq, np_)); g3 = rng.uniform(-6.0, 6.0, size=(nq, np_))
+        xx = x[:, None, None]
+        lnw = numpy.log(omega0)[None] - gammas[None] * xx + g2[None] * xx ** 2 + g3[None] * xx ** 3 + 0.02 * numpy.sin(25.0 * xx)
     else:
         raise ValueError(law)
     freqs = numpy.exp(lnw)
